@@ -106,6 +106,25 @@ EXTRA = {
  "C20": " Also: the dedup hash covers every leaf body (each nil return of the hash walk for a leaf is preceded by hashBody).",
 }
 
+EXTRA3 = {
+ "C01": " Also: an EXISTS responder is released only while no earlier one is held back (announce in UID order); canSkip is never true for an expunge update.",
+ "C02": " Also: snapshot.hasMessage is consulted only by the tabled callers (a session never decides what to announce from what its snapshot happens to hold).",
+ "C03": " Also: State-level Set of the \\Deleted flag goes through SetMailboxMessagesDeletedFlag.",
+ "C05": " Also: every queued expunge counts (no expunge responder is dropped or merged); on the *expunge edge of popResponders every path records the message id in the skip set.",
+ "C06": " Also: a held-back EXPUNGE always records its message id, so the EXISTS of a connector re-add cannot overtake it.",
+ "C07": " Also: DeleteUnchecked of the store is only called with ids created in the same function (fresh ids) or listed as orphans; the named transaction function's error decides commit.",
+ "C08": " Also: every pooled connection has foreign keys on (DSN _fk=1); INSERT OR IGNORE / OR REPLACE statements name exactly the columns of one uniqueness constraint, so a swallowed conflict loses nothing.",
+ "C09": " Also: every hash.Hash.Sum call is dominated by a Write on the same hasher (Sum's argument is a prefix, not input): the store key really depends on the whole passphrase.",
+ "C10": " Also: no branch on the value of an nDIGIT date/time/zone field leads to an error return in imap/command (RFC 3501 puts no range on them).",
+ "C11": " Also: ParseNumber/ParseNumberN reject a value above 2^32-1 inside the accumulation loop, on every digit (a check after the loop sees an accumulator that already wrapped).",
+ "C13": " Also: the MIME splitter returns a part from the position at which the scan for it started (read once, outside the loop that skips false delimiter matches) and records that same position as the part's offset.",
+ "C14": " Also: listInferiors selects a name only through listSuperiors membership or the prefix parent+delimiter (no looser substring/suffix test).",
+ "C16": " Also: every nil-error return of snapshot.getMessagesInRange is dominated by the interval resolution that validates each member (no fast path answers OK for a set with an invalid member); ParseNumber bounds the value on every digit.",
+ "C17": " Also: the statements behind the counts that feed the limit checks count every row (SELECT COUNT(*) without WHERE/JOIN/GROUP).",
+ "C18": " Also: State.Select/Examine install the new snapshot last (no failure return is reachable after State.snap is set).",
+ "C19": " Also: the lock-order graph includes generic instantiations.",
+}
+
 for i in ids:
     if i in impl and i in T:
         lt, ln, tech, ref = T[i]
@@ -116,7 +135,7 @@ for i in ids:
             "evidence_file": f"evidence/{i}.json",
             "replay_cmd_template": "./bin/verifcheck -replay {path}",
             "engine": "verifcheck",
-            "level_claimed": {"category": "other", "text": lt + EXTRA.get(i, ""), "design_ref": ref},
+            "level_claimed": {"category": "other", "text": lt + EXTRA.get(i, "") + EXTRA3.get(i, ""), "design_ref": ref},
             "level_note": ln,
             "technique": tech,
         })
